@@ -19,7 +19,7 @@ RULE = ('(a) fault points, ENUMERATED per score: a complete score-partwise built
         'serialiser calls once per element) for EVERY k, and the open() of the destination is refused by the operating system (OSError injected at builtins.open); each fault x prior destination state in {empty file, '
         'previous valid document, arbitrary bytes, no file}.  Oracle: write() raises and the destination bytes are exactly '
         'what they were.  (b) success, for every prior state in {absent, empty, shorter valid document, arbitrary '
-        'bytes, a document longer than the new one}: on return the file holds the XML declaration + to_string() encoded UTF-8 and '
+        'bytes, a document longer than the new one, the same document with CR LF line ends}: on return the file holds the XML declaration + to_string() encoded UTF-8 and '
         'xml.etree re-reads it.  (c) configurations: fresh interpreters with default text encoding ASCII '
         '(LC_ALL=C, PYTHONCOERCECLOCALE=0, -X utf8=0), UTF-8 (C.UTF-8), and emulated Latin-1 / cp1252 (launcher wraps '
         'builtins.open / io.open to apply that encoding whenever the caller passes none) import the package, build, '
@@ -110,16 +110,16 @@ PRIORS = {'empty': b'', 'valid': b'<?xml version="1.0" encoding="UTF-8"?>\n<scor
           # longer than any generated document: whatever write() does not replace would stay behind the new text
           'long': b'<?xml version="1.0" encoding="UTF-8"?>\n<score-partwise version="4.0"/>\n' + b'<!-- 0123456789 -->\n' * 20000,
           'absent': None}
-SUCCESS_PRIORS = ('absent', 'empty', 'valid', 'bytes', 'long')
+SUCCESS_PRIORS = ('absent', 'empty', 'valid', 'bytes', 'long', 'crlf-twin')
 
 
-def attempt_write(sc, prior, inject_at=None):
+def attempt_write(sc, prior, inject_at=None, prior_bytes=None):
     """returns (raised: Result, before bytes, after bytes)"""
     fd, p = tempfile.mkstemp(suffix='.xml', prefix='mxv_c17_')
     try:
         with os.fdopen(fd, 'wb') as f:
-            f.write(PRIORS[prior] or b'')
-        if PRIORS[prior] is None:
+            f.write(prior_bytes if prior_bytes is not None else (PRIORS[prior] or b''))
+        if prior_bytes is None and PRIORS[prior] is None:
             os.unlink(p)
         if inject_at is None:
             r = call(sc.write, p)
@@ -217,7 +217,15 @@ def check_success(spec, prior='valid'):
     rs = call(sc.to_string)
     if not rs.ok:
         return None
-    r, before, after = attempt_write(sc, prior)
+    if prior == 'crlf-twin':
+        # the destination already holds this very document, saved with CR LF line ends (another tool's copy)
+        try:
+            twin = ('<?xml version="1.0" encoding="UTF-8" standalone="no"?>\n' + rs.value).replace('\n', '\r\n').encode('utf-8')
+        except UnicodeEncodeError:
+            return None
+        r, before, after = attempt_write(sc, 'valid', prior_bytes=twin)
+    else:
+        r, before, after = attempt_write(sc, prior)
     try:
         want = ('<?xml version="1.0" encoding="UTF-8" standalone="no"?>\n' + rs.value).encode('utf-8')
     except UnicodeEncodeError:
@@ -384,7 +392,7 @@ def run_shard(ctx, shard, acc):
             for prior in SUCCESS_PRIORS:
                 f = check_success(spec, prior)
                 acc.case({'mode': 'success', 'spec': spec, 'prior': prior},
-                         any(ord(c) > 127 for c in spec['title'] + spec['words']) or prior in ('bytes', 'long'), 0)
+                         any(ord(c) > 127 for c in spec['title'] + spec['words']) or prior in ('bytes', 'long', 'crlf-twin'), 0)
                 acc.count('success-writes')
                 acc.count('success-prior-' + prior)
                 if f:
